@@ -121,6 +121,17 @@ def _gen_request(rnd, rid, world, cer_template, universe, fc_owner_pool):
                        ast, ("ta", second, ("k", own[1])))
         indicator = rnd.choice(["X", "Muss", "Muss", "Soll", "Kann"])
         element["e"] = f"{indicator} {render(ast)}"
+    # some elements carry the *same* expression (same format-constraint keys) as an earlier one, with another input:
+    # anything remembered per key or per expression shows up here; such keys have no single owner (oracle 1 only)
+    for index, element in enumerate(elements):
+        if index and rnd.random() < 0.3:
+            donor = elements[rnd.randrange(index)]
+            if donor["e"] != "X":
+                for key in [k for k, d in owners.items() if d == element["d"]]:
+                    del owners[key]
+                element["e"] = donor["e"]
+                for key in [k for k, d in owners.items() if d == donor["d"]]:
+                    owners[key] = None
     op = {"entry": "deep", "ahb": ahb, "soll": rnd.random() < 0.8}
     return {"rid": rid, "start": 0, "cer": dict(cer_template, hints={k: f"H{k}@{rid}" for k in hints}), "op": op,
             "owners": owners}
@@ -136,13 +147,22 @@ def generate(seed, tier="quick"):
     owner_pool = [str(k) for k in range(901, 1000) if str(k) not in FORBIDDEN_FC and str(k) not in world["fc_keys"]]
     rnd.shuffle(owner_pool)
     requests = [_gen_request(rnd, "r0", world, cer, universe, owner_pool)]
-    if rnd.random() < 0.35:
-        sibling = _gen_request(rnd, "r1", world, cer, universe, owner_pool)
-        sibling["start"] = rnd.choice([0, 0, 1, 3])
+    if rnd.random() < 0.4:
+        if rnd.random() < 0.5:
+            # the same AHB (same expressions and keys) with other inputs, validated by a second caller
+            sibling = clone(requests[0])
+            sibling["rid"] = "r1"
+            sibling["cer"] = dict(sibling["cer"], hints={k: f"H{k}@r1" for k in sibling["cer"]["hints"]})
+            for node, _ in walk(sibling["op"]["ahb"]):
+                if node["t"] == "f" and node["input"]:
+                    node["input"] = node["input"].replace("-r0-", "-r1-")
+        else:
+            sibling = _gen_request(rnd, "r1", world, cer, universe, owner_pool)
+        sibling["start"] = rnd.choice([0, 0, 1, 3, 1_000_000])
         if rnd.random() < 0.4:
             sibling["fault"] = {"kind": "cancel", "at": rnd.choice([0, 1, 2, 5, 50])}
         requests.append(sibling)
-    owned = sorted(k for r in requests for k in r["owners"])
+    owned = sorted({k for r in requests for k in r["owners"]})
     world["fc_keys"] = sorted(set(world["fc_keys"]) | set(owned))
     world["sync_fc"] = [k for k in world["fc_keys"] if rnd.random() < 0.15]
     profile = rnd.choice([p for p in PROFILES if p != "zero"] * 4 + ["zero"])
